@@ -3,6 +3,8 @@
 package rtpconn
 
 import (
+	"unsafe"
+
 	"sync/atomic"
 	"time"
 
@@ -114,6 +116,16 @@ type VerifLayer struct {
 
 func (d *VerifDown) Layer() VerifLayer {
 	l := d.T.getLayerInfo()
+	return VerifLayer{l.sid, l.wantedSid, l.maxSid, l.tid, l.wantedTid, l.maxTid, l.limitSid}
+}
+
+// LayerAddr is the address of the packed layer word (to recognise its stores).
+func (d *VerifDown) LayerAddr() unsafe.Pointer { return unsafe.Pointer(&d.T.atomics.layerInfo) }
+
+// VerifLayerOfRaw decodes a raw layer word with the real getLayerInfo.
+func VerifLayerOfRaw(raw uint32) VerifLayer {
+	t := &rtpDownTrack{atomics: &downTrackAtomics{layerInfo: raw}}
+	l := t.getLayerInfo()
 	return VerifLayer{l.sid, l.wantedSid, l.maxSid, l.tid, l.wantedTid, l.maxTid, l.limitSid}
 }
 
